@@ -177,6 +177,10 @@ fn own_site(site: u32) -> bool { (201..=205).contains(&site) }
 // script per process.  `GLOBAL <op> <op> ...` with I<r> = install recorder r on the main thread,
 // J<r> = install on a fresh thread, E = emit on the main thread, F = emit on a fresh thread,
 // P<n> = n threads emit 2000 times each while another thread makes 5 further (losing) installs,
+// L<r> / G<r> = a local scope with recorder r on the main thread (with_local_recorder / a
+// set_default_local_recorder guard) with one emission inside it, l<r> = the same on ONE persistent
+// worker thread, e = emit on that worker (a thread that scoped locally before the global install
+// must follow the global recorder afterwards like any other),
 // U<r> = install recorder r from a destructor that runs while a fresh thread is unwinding from a
 // panic, D = emit from such a destructor (the calling context must make no difference).
 // Output tokens: K<r> | X<r>[!x] (Ok / Err handing r back) | V<r> | N | P<number of emissions that did not reach the winner>.
@@ -205,9 +209,17 @@ fn during_unwind(r: Option<u64>) -> String {
     let _ = h.join();
     rx.recv().unwrap()
 }
+fn local_scope(r: u64, guard: bool) -> String {
+    let d = Dbl::new(r);
+    if guard { let _g = metrics::set_default_local_recorder(&d); global_emit() } else { metrics::with_local_recorder(&d, global_emit) }
+}
 fn global_script(ops: &str) -> String {
     metrics::__verif::set_callback(None);
     std::panic::set_hook(Box::new(|_| {}));
+    // one persistent worker thread, driven by the script
+    let (wtx, wrx) = std::sync::mpsc::channel::<Option<u64>>();
+    let (rtx, rrx) = std::sync::mpsc::channel::<String>();
+    let worker = std::thread::spawn(move || { for m in wrx { let _ = rtx.send(match m { Some(r) => local_scope(r, r % 2 == 0), None => global_emit() }); } });
     let mut out: Vec<String> = Vec::new();
     let mut winner: u64 = 0;
     for op in ops.split_whitespace() {
@@ -217,6 +229,10 @@ fn global_script(ops: &str) -> String {
             "J" => { let r: u64 = rest.parse().unwrap(); std::thread::spawn(move || global_install(r)).join().unwrap() }
             "E" => global_emit(),
             "F" => std::thread::spawn(global_emit).join().unwrap(),
+            "L" => local_scope(rest.parse().unwrap(), false),
+            "G" => local_scope(rest.parse().unwrap(), true),
+            "l" => { wtx.send(Some(rest.parse().unwrap())).unwrap(); rrx.recv().unwrap() }
+            "e" => { wtx.send(None).unwrap(); rrx.recv().unwrap() }
             "U" => during_unwind(Some(rest.parse().unwrap())),
             "D" => during_unwind(None),
             "P" => {
@@ -234,6 +250,8 @@ fn global_script(ops: &str) -> String {
         if let Some(r) = tok.strip_prefix('K') { winner = r.parse().unwrap(); }
         out.push(tok);
     }
+    drop(wtx);
+    let _ = worker.join();
     out.join(" ")
 }
 
